@@ -602,6 +602,15 @@ class System:
                         comp._component_type.name
                     )
                 )
+        # childs refer to their parents by name: follow a rename
+        orail = self._g.attrs["rails"][name]
+        for c in self._g.successor_indices(eidx):
+            self._g.attrs["pnames"][c] = [
+                comp._params["name"]
+                if (pn == name or (orail != "" and pn == orail))
+                else pn
+                for pn in self._g.attrs["pnames"][c]
+            ]
         self._g[eidx] = comp
         # replace node name in graph dict
         del [self._g.attrs["nodes"][name]]
@@ -673,6 +682,16 @@ class System:
                 del [self._g.attrs["groups"][self._g[c]._params["name"]]]
                 del [self._g.attrs["rails"][self._g[c]._params["name"]]]
                 self._g.remove_node(c)
+        # childs that are kept refer to the new parent by name
+        if not del_childs and childs[eidx] != -1:
+            orail = self._g.attrs["rails"][name]
+            for c in childs[eidx]:
+                self._g.attrs["pnames"][c] = [
+                    self._g[parents[eidx][0]]._params["name"]
+                    if (pn == name or (orail != "" and pn == orail))
+                    else pn
+                    for pn in self._g.attrs["pnames"][c]
+                ]
         # delete node
         self._g.remove_node(eidx)
         del [self._g.attrs["nodes"][name]]
